@@ -7,10 +7,12 @@ import (
 	"math/rand"
 	"sort"
 	"strings"
+	"sync"
 	"testing"
 
 	"github.com/restic/restic/internal/backend"
 	"github.com/restic/restic/internal/global"
+	"github.com/restic/restic/internal/repository/index"
 	"github.com/restic/restic/internal/repository/pack"
 	"github.com/restic/restic/internal/restic"
 	kit "github.com/restic/restic/internal/verifkit"
@@ -91,14 +93,244 @@ func vIndexVsPacks(t testing.TB, e *vEnv) []string {
 	return diffs
 }
 
+// c33Plan is one scenario: how the repository is built, what the environment breaks, how `repair index` is run.
+type c33Plan struct {
+	class   string
+	scale   uint   // index.Full threshold while the repository is built and repaired (0 = production rule)
+	kinds   []int  // damage kinds, applied in this order
+	readAll bool   // --read-all-packs
+	crash   int    // kill a first run at its k-th mutating operation, then run again
+	fault   string // one-shot read fault during the (judged) run: "" | pack-error | pack-garble | pack-transient | index-error | index-garble
+	faultAt int    // ... at the k-th Load of a file of that type
+}
+
+const (
+	c33IndexDeleted = iota
+	c33IndexTruncated
+	c33IndexBitflip
+	c33AllIndexDeleted
+	c33PackMissing
+	c33PackTruncated
+	c33PackBlobBitflip
+	c33Bogus
+	c33IndexDuplicated
+	c33IndexPartial
+	c33IndexSplit
+	c33NKinds
+)
+
+// c33MakePlan draws the scenario of a class.  "rand": everything random (the wide net).  "full": index.Full is
+// scaled down so that the backups write several full index files, and packs listed there go missing / get
+// truncated / are described wrongly (the index rewrite must not keep such a file as it is).  "rfault": repair
+// has to read pack headers (index files lost, orphan packs, --read-all-packs) and one Load goes wrong once.
+func c33MakePlan(class string, r *rand.Rand) c33Plan {
+	p := c33Plan{class: class}
+	switch class {
+	case "full":
+		p.scale = uint(3 + r.Intn(6))
+		p.kinds = [][]int{{c33PackMissing}, {c33PackTruncated}, {c33PackMissing, c33PackTruncated}, {c33Bogus}, {c33PackMissing, c33IndexPartial}, {c33PackTruncated, c33IndexDuplicated}}[r.Intn(6)]
+		if r.Intn(3) == 0 {
+			p.kinds = append(p.kinds, []int{c33IndexDeleted, c33PackBlobBitflip, c33IndexSplit, c33PackMissing}[r.Intn(4)])
+		}
+		p.readAll = r.Intn(6) == 0
+		if r.Intn(4) == 0 {
+			p.crash = 1 + r.Intn(5)
+		}
+	case "rfault":
+		if r.Intn(3) == 0 {
+			p.scale = uint(3 + r.Intn(6))
+		}
+		p.fault = []string{"pack-error", "pack-garble", "pack-error", "pack-garble", "pack-transient", "index-error", "index-garble"}[r.Intn(7)]
+		if strings.HasPrefix(p.fault, "index-") {
+			// an index file that cannot be loaded is dropped and the packs it described are read instead
+			p.kinds = [][]int{{}, {c33IndexDeleted}, {c33PackMissing}, {c33PackTruncated}}[r.Intn(4)]
+			p.faultAt = 1 + r.Intn(3)
+		} else {
+			// repair must have pack headers to read: lost index files or --read-all-packs
+			p.kinds = [][]int{{c33AllIndexDeleted}, {c33IndexDeleted}, {c33IndexDeleted, c33IndexDeleted}, {}, {c33IndexTruncated}, {c33IndexDeleted, c33PackTruncated}}[r.Intn(6)]
+			p.readAll = len(p.kinds) == 0 || r.Intn(4) == 0
+			p.faultAt = 1 + r.Intn(2)
+			if p.readAll || p.kinds[0] == c33AllIndexDeleted {
+				p.faultAt = 1 + r.Intn(6)
+			}
+		}
+	default:
+		if r.Intn(3) == 0 {
+			p.scale = uint(3 + r.Intn(6))
+		}
+		for _, k := range r.Perm(c33NKinds)[:1+r.Intn(3)] {
+			p.kinds = append(p.kinds, k)
+		}
+		p.readAll = r.Intn(3) == 0
+		if r.Intn(3) == 0 {
+			p.crash = 1 + r.Intn(5)
+		} else if r.Intn(4) == 0 {
+			p.fault = []string{"pack-error", "pack-garble", "pack-transient"}[r.Intn(3)]
+			p.faultAt = 1 + r.Intn(3)
+		}
+	}
+	return p
+}
+
+// c33Damage applies one damage kind; returns its description ("" = not applicable here).
+func c33Damage(t testing.TB, e *vEnv, r *rand.Rand, kind int, scale uint) string {
+	packs := e.store.Names(backend.PackFile)
+	idxs := e.store.Names(backend.IndexFile)
+	switch kind {
+	case c33IndexDeleted:
+		if len(idxs) > 0 {
+			e.store.EnvRemove(backend.Handle{Type: backend.IndexFile, Name: idxs[r.Intn(len(idxs))]})
+			return "index-deleted"
+		}
+	case c33IndexTruncated:
+		if len(idxs) > 0 {
+			h := backend.Handle{Type: backend.IndexFile, Name: idxs[r.Intn(len(idxs))]}
+			if d, ok := e.store.Get(h); ok && len(d) > 10 {
+				e.store.EnvPut(h, d[:len(d)/2])
+				return "index-truncated"
+			}
+		}
+	case c33IndexBitflip:
+		if len(idxs) > 0 {
+			h := backend.Handle{Type: backend.IndexFile, Name: idxs[r.Intn(len(idxs))]}
+			if d, ok := e.store.Get(h); ok && len(d) > 10 {
+				d = append([]byte{}, d...)
+				d[r.Intn(len(d))] ^= 0x40
+				e.store.EnvPut(h, d)
+				return "index-bitflip"
+			}
+		}
+	case c33AllIndexDeleted:
+		if len(idxs) > 0 {
+			for _, n := range idxs {
+				e.store.EnvRemove(backend.Handle{Type: backend.IndexFile, Name: n})
+			}
+			return "all-index-deleted"
+		}
+	case c33PackMissing:
+		if len(packs) > 1 {
+			e.store.EnvRemove(backend.Handle{Type: backend.PackFile, Name: packs[r.Intn(len(packs))]})
+			return "pack-missing"
+		}
+	case c33PackTruncated:
+		if len(packs) > 1 {
+			h := backend.Handle{Type: backend.PackFile, Name: packs[r.Intn(len(packs))]}
+			if d, ok := e.store.Get(h); ok && len(d) > 40 {
+				e.store.EnvPut(h, d[:len(d)-1-r.Intn(30)])
+				return "pack-truncated"
+			}
+		}
+	case c33PackBlobBitflip:
+		if len(packs) > 0 {
+			h := backend.Handle{Type: backend.PackFile, Name: packs[r.Intn(len(packs))]}
+			if d, ok := e.store.Get(h); ok && len(d) > 100 {
+				d = append([]byte{}, d...)
+				d[r.Intn(40)] ^= 0x01
+				e.store.EnvPut(h, d)
+				return "pack-blob-bitflip"
+			}
+		}
+	case c33Bogus:
+		if desc, err := vBogusIndex(t, e, r, int(scale)); err == nil {
+			return desc
+		}
+	case c33IndexDuplicated, c33IndexPartial, c33IndexSplit:
+		if desc, err := vDupIndex(e, r, map[int]string{c33IndexDuplicated: "index-duplicated", c33IndexPartial: "index-partial", c33IndexSplit: "index-split"}[kind]); err == nil {
+			return desc
+		}
+	}
+	return ""
+}
+
+// c33FullIndexesListingBadPacks counts the index files that restic considers full (and not oversized) and that list
+// a pack which is missing or whose header cannot be read - the files the index rewrite is tempted to keep.
+func c33FullIndexesListingBadPacks(e *vEnv) int {
+	repo, err := e.open()
+	if err != nil {
+		return 0
+	}
+	okPack := map[string]bool{}
+	for _, name := range e.store.Names(backend.PackFile) {
+		d, _ := e.store.Get(backend.Handle{Type: backend.PackFile, Name: name})
+		if _, _, err := pack.List(repo.Key(), bytes.NewReader(d), int64(len(d))); err == nil {
+			okPack[name] = true
+		}
+	}
+	n := 0
+	for _, name := range e.store.Names(backend.IndexFile) {
+		idx := vDecodeIndexFile(e, repo.Key(), name)
+		if idx == nil || !index.Full(idx) || index.Oversized(idx) {
+			continue
+		}
+		for id := range idx.Packs() {
+			if !okPack[id.String()] {
+				n++
+				break
+			}
+		}
+	}
+	return n
+}
+
+// c33ReadFault arms a one-shot read fault: the k-th Load of a file of the given type goes wrong once (an error
+// the retry layer passes on at once, an error it retries itself, or a successful read that delivers garbage);
+// every other read is served normally.  Returns a function telling whether the fault was delivered.
+func c33ReadFault(e *vEnv, fault string, k int) func() bool {
+	var mu sync.Mutex
+	n, fired := 0, false
+	ft := backend.PackFile
+	if strings.HasPrefix(fault, "index-") {
+		ft = backend.IndexFile
+	}
+	e.store.ReadFault = func(_ string, h backend.Handle, _ int, _ int64, d []byte) ([]byte, error) {
+		if h.Type != ft {
+			return d, nil
+		}
+		mu.Lock()
+		n++
+		hit := n == k && !fired
+		if hit {
+			fired = true
+		}
+		mu.Unlock()
+		if !hit {
+			return d, nil
+		}
+		switch {
+		case strings.HasSuffix(fault, "-error"):
+			return nil, fmt.Errorf("%w (one-shot read fault on %v)", kit.ErrInjected, h)
+		case strings.HasSuffix(fault, "-transient"):
+			return nil, fmt.Errorf("verif: connection reset while reading %v (one-shot)", h)
+		default:
+			g := append([]byte{}, d...)
+			for i := range g {
+				g[i] ^= 0x55
+			}
+			return g, nil
+		}
+	}
+	return func() bool { mu.Lock(); defer mu.Unlock(); return fired }
+}
+
 func TestVerif_C33(t *testing.T) {
-	res := kit.NewResult("one case = one `repair index` run (with / without --read-all-packs, optionally killed at its k-th mutating operation and re-run) on a generated repository damaged by a random subset of {index file deleted, truncated, bit-flipped, replaced by a bogus-but-valid index naming wrong offsets / missing packs / foreign blobs, pack file missing, pack file truncated (header unreadable), blob area of a pack bit-flipped, orphan pack}; judged by RepoTrace.tla RepairIndexExact + pack set unchanged, and by comparing the index a fresh process loads with the real pack headers (offset, length, uncompressed length); distinct by scenario seed")
+	res := kit.NewResult("one case = one `repair index` run (with / without --read-all-packs, optionally killed at its k-th mutating operation and re-run, optionally with one Load of a pack / index file going wrong once: error or garbled bytes) on a generated repository (built with the production index.Full rule or with the threshold scaled to 3..8 blobs, so that it has several full index files) damaged by a subset of {index file deleted, truncated, bit-flipped, duplicated, partial, split, replaced by a bogus-but-valid (optionally full) index naming wrong offsets / missing packs / foreign blobs, pack file missing, pack file truncated (header unreadable), blob area of a pack bit-flipped, orphan pack}; judged by RepoTrace.tla RepairIndexExact + pack set unchanged, and by comparing the index a fresh process loads with the real pack headers (offset, length, uncompressed length); distinct by scenario seed")
 	tr := kit.NewNDJSON("trace.ndjson")
 	defer tr.Close()
-	ns := kit.Pick(14, 300)
+	// quick: 8 random + 6 full-index + 6 read-fault scenarios; thorough: 300 (1/2 random, 1/4 each targeted class)
+	classOf := func(si int) string {
+		if kit.Thorough() {
+			return []string{"rand", "full", "rand", "rfault"}[si%4]
+		}
+		return []string{"rand", "full", "rfault", "rand", "full", "rfault", "rand", "full", "rfault", "rand", "full", "rfault",
+			"rand", "full", "rfault", "rand", "full", "rfault", "rand", "rand"}[si%20]
+	}
+	ns := kit.Pick(20, 300)
+	defer vScaleIndexFull(0)
 	for si := 0; si < ns; si++ {
 		seed := kit.Seed()*100000 + 3300 + int64(si)
 		r := rand.New(rand.NewSource(seed))
+		plan := c33MakePlan(classOf(si), r)
+		vScaleIndexFull(plan.scale)
 		l, err := newVLife(t, seed, []string{"2", "1"}[si%2], true)
 		if err != nil {
 			res.Problem("scenario %d: %v", seed, err)
@@ -114,90 +346,51 @@ func TestVerif_C33(t *testing.T) {
 		}
 		e := l.e
 		var damage []string
-		packs := e.store.Names(backend.PackFile)
-		idxs := e.store.Names(backend.IndexFile)
-		pickDamage := r.Perm(8)[:1+r.Intn(3)]
-		for _, dk := range pickDamage {
-			switch dk {
-			case 0:
-				if len(idxs) > 0 {
-					e.store.EnvRemove(backend.Handle{Type: backend.IndexFile, Name: idxs[r.Intn(len(idxs))]})
-					damage = append(damage, "index-deleted")
-				}
-			case 1:
-				if len(idxs) > 0 {
-					h := backend.Handle{Type: backend.IndexFile, Name: idxs[r.Intn(len(idxs))]}
-					if d, ok := e.store.Get(h); ok && len(d) > 10 {
-						e.store.EnvPut(h, d[:len(d)/2])
-						damage = append(damage, "index-truncated")
-					}
-				}
-			case 2:
-				if len(idxs) > 0 {
-					h := backend.Handle{Type: backend.IndexFile, Name: idxs[r.Intn(len(idxs))]}
-					if d, ok := e.store.Get(h); ok && len(d) > 10 {
-						d = append([]byte{}, d...)
-						d[r.Intn(len(d))] ^= 0x40
-						e.store.EnvPut(h, d)
-						damage = append(damage, "index-bitflip")
-					}
-				}
-			case 3:
-				if len(idxs) > 0 {
-					for _, n := range idxs {
-						e.store.EnvRemove(backend.Handle{Type: backend.IndexFile, Name: n})
-					}
-					damage = append(damage, "all-index-deleted")
-				}
-			case 4:
-				if len(packs) > 1 {
-					e.store.EnvRemove(backend.Handle{Type: backend.PackFile, Name: packs[r.Intn(len(packs))]})
-					damage = append(damage, "pack-missing")
-				}
-			case 5:
-				if len(packs) > 1 {
-					h := backend.Handle{Type: backend.PackFile, Name: packs[r.Intn(len(packs))]}
-					if d, ok := e.store.Get(h); ok && len(d) > 40 {
-						e.store.EnvPut(h, d[:len(d)-1-r.Intn(30)])
-						damage = append(damage, "pack-truncated")
-					}
-				}
-			case 6:
-				if len(packs) > 0 {
-					h := backend.Handle{Type: backend.PackFile, Name: packs[r.Intn(len(packs))]}
-					if d, ok := e.store.Get(h); ok && len(d) > 100 {
-						d = append([]byte{}, d...)
-						d[r.Intn(40)] ^= 0x01
-						e.store.EnvPut(h, d)
-						damage = append(damage, "pack-blob-bitflip")
-					}
-				}
-			case 7:
-				if desc, err := vBogusIndex(t, e, r); err == nil {
-					damage = append(damage, desc)
-				}
+		for _, dk := range plan.kinds {
+			if d := c33Damage(t, e, r, dk, plan.scale); d != "" {
+				damage = append(damage, d)
 			}
 		}
+		fullBad := c33FullIndexesListingBadPacks(e)
 		packsBefore := e.store.Names(backend.PackFile)
-		opts := RepairIndexOptions{ReadAllPacks: r.Intn(3) == 0}
-		crash := 0
-		if r.Intn(3) == 0 {
-			crash = 1 + r.Intn(5)
-		}
-		desc := fmt.Sprintf("%v read-all-packs=%v crash=%d", damage, opts.ReadAllPacks, crash)
-		if crash > 0 {
-			_ = l.runCmd(e, "repair-index", crash, func(ctx context.Context, g global.Options) error {
+		opts := RepairIndexOptions{ReadAllPacks: plan.readAll}
+		desc := fmt.Sprintf("class=%s index.Full=%d %v read-all-packs=%v crash=%d fault=%s@%d", plan.class, plan.scale, damage, opts.ReadAllPacks, plan.crash, plan.fault, plan.faultAt)
+		if plan.crash > 0 {
+			_ = l.runCmd(e, "repair-index", plan.crash, func(ctx context.Context, g global.Options) error {
 				return runRebuildIndex(ctx, opts, g, g.Term)
 			})
 		}
-		err = e.run("repair-index", func() kit.Ev { return kit.Ev{"repairindex": true} }, func(ctx context.Context, g global.Options) error {
-			return runRebuildIndex(ctx, opts, g, g.Term)
+		fired := func() bool { return false }
+		if plan.fault != "" {
+			fired = c33ReadFault(e, plan.fault, plan.faultAt)
+		}
+		// a run that reports failure after a read error of the backend promised nothing: its end state is judged by
+		// the storage invariants only, not by the post-condition of a completed repair
+		excused := false
+		err = e.run("repair-index", func() kit.Ev { return kit.Ev{"repairindex": !excused} }, func(ctx context.Context, g global.Options) error {
+			rerr := runRebuildIndex(ctx, opts, g, g.Term)
+			excused = rerr != nil && fired() && !strings.HasSuffix(plan.fault, "-garble")
+			return rerr
 		})
-		res.Case(fmt.Sprintf("%d", seed), len(damage) > 0)
+		e.store.ReadFault = nil
+		vScaleIndexFull(0)
+		res.Case(fmt.Sprintf("%d", seed), len(damage) > 0 || fired())
+		res.Count("class_"+plan.class, 1)
 		for _, d := range damage {
 			res.Count("damage_"+strings.SplitN(d, ":", 2)[0], 1)
 		}
-		if err != nil {
+		if plan.scale > 0 {
+			res.Count("scaled_index_full", 1)
+		}
+		if fullBad > 0 {
+			res.Count("full_index_file_lists_missing_or_unreadable_pack", 1)
+		}
+		if fired() {
+			res.Count("read_fault_delivered_"+plan.fault, 1)
+		}
+		if excused {
+			res.Count("failed_after_delivered_read_error_not_judged", 1)
+		} else if err != nil {
 			res.Violate("repair-index/fails", fmt.Sprintf("scenario %d (%s): repair index failed: %v :: %s", seed, desc, err, vTail(e.lastErr, 300)), map[string]any{"scenario": seed})
 		} else {
 			if diffs := vIndexVsPacks(t, e); len(diffs) > 0 {
@@ -214,8 +407,8 @@ func TestVerif_C33(t *testing.T) {
 				res.Violate("repair-index/pack-set-changed", fmt.Sprintf("scenario %d (%s): pack files before %d after %d", seed, desc, len(packsBefore), len(after)), map[string]any{"scenario": seed})
 			}
 		}
-		if si < 4 {
-			res.Sample(map[string]any{"scenario": seed, "damage": damage, "read_all_packs": opts.ReadAllPacks, "crash_at": crash})
+		if si < 6 {
+			res.Sample(map[string]any{"scenario": seed, "class": plan.class, "index_full": plan.scale, "damage": damage, "read_all_packs": opts.ReadAllPacks, "crash_at": plan.crash, "read_fault": plan.fault})
 		}
 		tr.Write(kit.Ev{"ev": "Reset", "proc": "env", "history": seed, "desc": desc})
 		vWriteTrace(tr, e.trace(false))
